@@ -629,8 +629,8 @@ func replayOne(v *violation, prop string, h HarnessPlan, params map[string]int, 
 	// copy overlay files into the replay dir so that it is self-contained
 	ovl := map[string]string{}
 	for virt, real := range files {
-		if !strings.HasPrefix(virt, filepath.Join(repoDir, h.Pkg)+"/") {
-			continue
+		if filepath.Dir(virt) != filepath.Join(repoDir, h.Pkg) {
+			continue // files of sub-packages have the same base names (zz_verif_api.go)
 		}
 		dst := filepath.Join(dir, filepath.Base(virt))
 		b, _ := os.ReadFile(real)
